@@ -161,6 +161,11 @@ class Gen:
             ("contains(ss, :v)", {}, {":v": S(r.choice(["p", "q"]))}),
             ("contains(s, :v)", {}, {":v": S("ell")}),
             ("NOT (g = :v)", {}, {":v": S(v)}), ("NOT g = :v", {}, {":v": S(v)}),
+            ("NOT g = :v AND attribute_exists(f)", {}, {":v": S(v)}), ("attribute_exists(h) AND NOT g = :v AND f = :w", {}, {":v": S(v), ":w": S(w)}),
+            ("NOT attribute_exists(f) AND g = :v", {}, {":v": S(v)}), ("NOT g = :v OR f = :w AND NOT n > :n", {}, {":v": S(v), ":w": S(w), ":n": N(n1)}),
+            ("n > :n", {}, {":n": N(r.choice(["1.5", "9.5", "0.6", "99.75"]))}), ("n <= :n", {}, {":n": N(r.choice(["1.5", "9.5", "0.6", "2.25"]))}),
+            ("m = :m", {}, {":m": {"M": {"x": self.scalar()}}}), ("m <> :m", {}, {":m": {"M": {"x": self.scalar(), "y": S("more")}}}),
+            ("m = :m", {}, {":m": {"M": {}}}), ("m IN (:o, :m)", {}, {":o": S("no"), ":m": {"M": {"x": self.scalar(), "zz": S("extra")}}}),
             ("g = :v AND attribute_exists(f)", {}, {":v": S(v)}),
             ("g = :v OR n > :n", {}, {":v": S(v), ":n": N(n1)}),
             ("g = :v OR f = :w AND n > :n", {}, {":v": S(v), ":w": S(w), ":n": N(n1)}),
@@ -203,6 +208,8 @@ class Gen:
             ("SET n = n + :n", {}, {":n": N(n1)}), ("SET n = n - :n", {}, {":n": N(n1)}),
             ("SET n = if_not_exists(n, :z) + :n", {}, {":z": N("0"), ":n": N(n1)}),
             ("ADD n :n", {}, {":n": N(n1)}), ("ADD ss :s", {}, {":s": {"SS": ["q", "z"]}}),
+            ("SET before = if_not_exists(n, :z) ADD n :n", {}, {":z": N("0"), ":n": N(n1)}), ("SET prev = if_not_exists(m, :e), m.x = :v", {}, {":e": {"M": {}}, ":v": S(v)}),
+            ("SET nx = n ADD nx :n", {}, {":n": N(n1)}), ("SET l2 = list_append(l, :l) REMOVE l[0]", {}, {":l": {"L": [S(v)]}}),
             ("DELETE ss :s", {}, {":s": {"SS": ["q"]}}), ("DELETE ss :s", {}, {":s": {"SS": ["p", "q", "r"]}}),
             ("SET l = list_append(l, :l)", {}, {":l": {"L": [S(v)]}}),
             ("SET l = list_append(if_not_exists(l, :e), :l)", {}, {":e": {"L": []}, ":l": {"L": [N(n1)]}}),
@@ -246,10 +253,18 @@ class Gen:
 
     # ---------- scripts ----------
     def data_op(self, client, tabs, nops):
+        """one data operation; on a table that does not exist the request sometimes ALSO breaks an expression rule (an unused
+        name): which of the two errors is reported must not depend on the SDK flavour"""
+        out = self._data_op(client, tabs, nops)
+        if out and out[0].get("table") == "nope" and out[0]["op"] in ("put", "get", "update", "delete", "query", "scan") and self.r.random() < 0.5:
+            out[0]["names"] = dict(out[0].get("names") or {}, **{"#zz": "g"})
+        return out
+
+    def _data_op(self, client, tabs, nops):
         """one data operation on a (usually existing) table; may reference earlier LastEvaluatedKeys"""
         r = self.r
         t = r.choice(tabs)
-        name = t["name"] if r.random() < 0.97 else "nope"
+        name = t["name"] if r.random() < 0.96 else "nope"
         k = r.random()
         base = dict(client=client, table=name)
         if k < 0.28:
@@ -411,7 +426,9 @@ class ExprGen(Gen):
         if t == "M": return {"M": {k: self.typed_value(r.choice(TYPES[:6] if depth > 0 else TYPES[:5]), depth - 1)
                                    for k in r.sample(["x", "y", "z"], r.randrange(0, 3))}}
         if t == "SS": return {"SS": r.sample(["x", "y", "xy", "p"], r.randrange(1, 4))}
-        if t == "NS": return {"NS": r.sample(["1", "2", "10", "1.5"], r.randrange(1, 4))}
+        if t == "NS":
+            if r.random() < 0.15: return {"NS": r.sample(["9007199254740993", "9007199254740992", "0.1", "0.10000000000000000001", "7"], r.randrange(2, 5))}
+            return {"NS": r.sample(["1", "2", "10", "1.5"], r.randrange(1, 4))}
         return {"BS": r.sample(["x", "xy", "\x01"], r.randrange(1, 4))}
 
     def related_value(self, own):
@@ -437,6 +454,14 @@ class ExprGen(Gen):
             else: v[t] = v[t][:-1]
         elif t in ("S", "B"):
             v[t] = v[t] + "x" if grow or not v[t] else v[t][:-1]
+        elif t == "N":
+            # a number close to the given one (less than 1 apart), or far beyond the 64-bit integers
+            from decimal import Decimal, InvalidOperation
+            try:
+                d = Decimal(v["N"])
+                v["N"] = format(d + Decimal(r.choice(["0.5", "-0.5", "0.25", "-0.75", "0.001", "1", "-1", "1e25", "-1e25"])), "f")
+            except InvalidOperation:
+                pass
         return v
 
     def expr_item(self):
@@ -444,7 +469,7 @@ class ExprGen(Gen):
         it = {}
         for a in ATTRS:
             if r.random() < 0.75:
-                it[a] = self.typed_value(r.choice(TYPES))
+                it[a] = self.typed_value(r.choice(TYPES + ["N", "S"]))
         return it
 
     def path(self, ctx):
@@ -510,11 +535,14 @@ class ExprGen(Gen):
                     pth = self.path(ctx)
                     own = (ctx.get("item") or {}).get(pth)
                     is_multi_set = bool(own) and list(own)[0] in ("SS", "BS", "NS") and len(list(own.values())[0]) >= 2
-                    if own and r.random() < (0.85 if is_multi_set else 0.4):
-                        # a value structurally close to the attribute's own: a sub- or super-container of it
+                    is_num = bool(own) and list(own)[0] == "N"
+                    if own and r.random() < (0.85 if is_multi_set or is_num else 0.4):
+                        # a value structurally close to the attribute's own: a sub- or super-container of it, a nearby number
                         rel = self.related_value(own)
                         name = ":v%d" % len(ctx["values"]); ctx["values"][name] = rel
-                        form = r.choice(["%s = %s", "%s <> %s", "%s IN (%s)", "contains(%s, %s)"])
+                        form = r.choice(["%s = %s", "%s <> %s", "%s IN (%s)", "contains(%s, %s)"] if not is_num else
+                                        ["%s = %s", "%s <> %s", "%s < %s", "%s <= %s", "%s > %s", "%s >= %s", "%s IN (%s)", "%s BETWEEN %s AND :big"])
+                        if ":big" in form: ctx["values"][":big"] = N("1e30")
                         a, b_ = (pth, name) if r.random() < 0.6 or "IN" in form or "contains" in form else (name, pth)
                         return form % (a, b_)
                     if own:
@@ -537,6 +565,10 @@ class ExprGen(Gen):
                 return "%s BETWEEN %s AND %s" % (pth, self.val(ctx, t), self.val(ctx, r.choice([t, t, "S"])))
             if k < 0.60:
                 t = r.choice(["S", "N", "BOOL"])
+                if r.random() < 0.25:
+                    # operands that are attribute paths themselves, stored or missing (a missing attribute equals nothing, not even another missing one)
+                    ops_ = [r.choice([self.path(ctx), r.choice(["nope", "zq"]), self.val(ctx, t)]) for _ in range(r.randrange(1, 4))]
+                    return "%s IN (%s)" % (r.choice([self.path(ctx), "nope", "zq"]), ", ".join(ops_))
                 return "%s IN (%s)" % (self.path(ctx), ", ".join(self.val(ctx, r.choice([t, t, "S"])) for _ in range(r.randrange(1, 4))))
             if k < 0.70: return "attribute_exists(%s)" % self.path(ctx)
             if k < 0.78: return "attribute_not_exists(%s)" % self.path(ctx)
